@@ -198,6 +198,10 @@ def make_tree():
                os.path.join(top, "dir", "a"), os.path.join(root, "a "), os.path.join(root, " a"), os.path.join(top, "root", "a"), os.path.join(top, L255)]
     absdir = ABSDIR
     outside.append(os.path.join(absdir, "a"))
+    # decoys: directories with the base's name below the working directories used with relative bases that start with `..`
+    for decoy in (os.path.join(root, "work", "base"), os.path.join(root, "work", "root", "base"), os.path.join(root, "work", "work", "base")):
+        for rel in ("a", "dir/a", "canary", "sub/a", "d/a", "d/d/a", "dir/sub/a", "a."):
+            outside.append(os.path.join(decoy, rel))
     tags = {}
     for i, rel in enumerate(inside):
         p = os.path.join(base, rel)
@@ -429,7 +433,13 @@ def run_all(chk, mj, hooks, proofs_ok, top, base, absdir, tags, outside):
     # the base directory handed to path_loader in different spellings: absolute (full name set), relative to the working
     # directory, with a trailing slash, with a `.` component, through a symbolic link outside the base
     configs = [("absolute", base, None), ("relative", "base", root), ("absolute with trailing slash", base + "/", None),
-               ("absolute with a . component", root + "/./base", None), ("symbolic link to the base", LINK, None), ("relative ./base/", "./base/", root)]
+               ("absolute with a . component", root + "/./base", None), ("symbolic link to the base", LINK, None), ("relative ./base/", "./base/", root),
+               # relative bases that climb: a loader that folds `..` lexically (or drops leading ones) serves a decoy of the same name under the cwd
+               ("relative ../base", "../base", os.path.join(root, "work")), ("relative ./../base", "./../base", os.path.join(root, "work")),
+               ("relative ../../root/base", "../../root/base", os.path.join(root, "work")), ("relative ../work/../base", "../work/../base", os.path.join(root, "work")),
+               ("relative base/sub/..", "base/sub/..", root), ("relative base2/../base", "base2/../base", root), ("relative nonexistent/../base", "nonexistent/../base", root),
+               ("relative .", ".", base), ("empty string", "", base), ("relative ..", "..", os.path.join(base, "dir")), ("relative ../..", "../..", os.path.join(base, "dir", "sub")),
+               ("absolute with ..", os.path.join(root, "work", "..", "base"), None), ("absolute with trailing ..", os.path.join(base, "dir", ".."), None)]
     ntarget = sum(1 for c in e2e if c[1] == 0)
     for ci, (label, cfg_base, cwd) in enumerate(configs):
         if replay:
@@ -438,7 +448,7 @@ def run_all(chk, mj, hooks, proofs_ok, top, base, absdir, tags, outside):
             sub = e2e
         else:
             # the first configuration gets every name; the others the targeted names (traversal spellings, base-derived, long)
-            sub = e2e if ci == 0 else [c for c in e2e if len(c) < 400][:9000 if not chk.thorough else 40000]
+            sub = e2e if ci == 0 else [c for c in e2e if len(c) < 400][:(9000 if ci < 6 else 3500) if not chk.thorough else 40000]
         if not sub:
             continue
         env = dict(ENV, C17_BASE=cfg_base)
